@@ -5,7 +5,7 @@
 (*   mpq1  every mpq sub-command x input class x option flag on a prepared archive                  *)
 (*   pipe  mpq create ; list ; info ; extract over file sets x version x compression x listfile x   *)
 (*         threads x preserve-paths x explicit names (all / some / incl. a missing one) x skip-errors *)
-(*         (thorough: the whole product; quick: a seed-rotated 1/16 of it)                           *)
+(*         x patch chain (thorough: the whole product; quick: a seed-rotated 1/32 of it)                           *)
 EXTENDS Cli, Json, IOUtils, SequencesExt
 
 Thorough == IOEnv.VERIF_TIER = "thorough"
@@ -23,7 +23,7 @@ KindsOf(f, c) == CASE f = "dbc" -> {"dbc"}
 VariantCount(k) == CASE k = "dbc" -> 5 [] k = "blp" -> 8 [] k = "m2" -> 5 [] k = "skin" -> 3 [] k = "anim" -> 3
                      [] k = "wmo_root" -> 3 [] k = "wmo_group" -> 3 [] k = "adt" -> 5 [] k = "wdt" -> 6 [] k = "wdl" -> 4
 \* kinds for which the harness can make a file that parses but fails validation
-HasFlagged(k) == k \in {"blp", "m2", "wmo_root", "skin"}
+HasFlagged(k) == k \in {"blp", "m2", "wmo_root", "skin", "dbc"}      \* dbc: a schema with one field too many
 Variants(k) == IF Thorough THEN 0..(VariantCount(k) - 1) ELSE {SeedN % VariantCount(k)}
 
 Fmt == {[mode |-> "fmt", fam |-> f, cmd |-> c, kind |-> k, input |-> inp, variant |-> v, opt |-> o]
@@ -42,12 +42,18 @@ FileSets == {"one", "few", "many"}
 Versions == {"v1", "v2", "v3", "v4"}
 Compressions == {"none", "zlib", "bzip2", "lzma"}
 Pipe == {[mode |-> "pipe", fam |-> "mpq", cmd |-> "pipeline", files |-> fs, version |-> ver, compression |-> co, listfile |-> lf,
-          threads |-> th, preserve |-> pr, explicit |-> ex, skip |-> sk]
+          threads |-> th, preserve |-> pr, explicit |-> ex, skip |-> sk, chain |-> ch]
          : fs \in FileSets, ver \in Versions, co \in Compressions, lf \in BOOLEAN, th \in {0, 1, 4}, pr \in BOOLEAN,
-           ex \in {"all", "some", "missing"}, sk \in BOOLEAN}
-Idx(S, x) == CHOOSE i \in 1..Len(S) : S[i] = x
-PipeSeq == SetToSeq(Pipe)
-PipeCases == IF Thorough THEN Pipe ELSE {PipeSeq[i] : i \in {j \in 1..Len(PipeSeq) : j % 16 = SeedN % 16}}
+           ex \in {"all", "some", "missing"}, sk \in BOOLEAN, ch \in BOOLEAN}
+\* quick: a residue class of a weighted sum of the option codes (every value of every dimension occurs, rotating with the seed)
+B(b) == IF b THEN 1 ELSE 0
+FC(x) == CASE x = "one" -> 0 [] x = "few" -> 1 [] x = "many" -> 2
+           [] x = "v1" -> 0 [] x = "v2" -> 1 [] x = "v3" -> 2 [] x = "v4" -> 3
+           [] x = "none" -> 0 [] x = "zlib" -> 1 [] x = "bzip2" -> 2 [] x = "lzma" -> 3
+           [] x = "all" -> 0 [] x = "some" -> 1 [] x = "missing" -> 2
+PipeHash(x) == (FC(x.files) + 3 * FC(x.version) + 5 * FC(x.compression) + 7 * B(x.listfile) + 11 * x.threads + 13 * B(x.preserve)
+                + 17 * FC(x.explicit) + 19 * B(x.skip) + 23 * B(x.chain)) % 32
+PipeCases == IF Thorough THEN Pipe ELSE {x \in Pipe : PipeHash(x) = SeedN % 32}
 
 All == SetToSeq(FmtCases) \o SetToSeq(Mpq1Cases) \o SetToSeq(PipeCases)
 Numbered == [i \in 1..Len(All) |-> [id |-> i] @@ All[i]]
